@@ -43,6 +43,7 @@ static long g_seq;
 static const char *g_out_path;
 static uint64_t g_seed = 1;
 static int g_perturb = 1;
+static int g_watchdog_s = 30;
 
 static tp_p g_tp; static size_t g_n;      /* current pool, worker count; pvt has index g_n */
 static hmsg_t g_msg[MAXMSG];
@@ -364,8 +365,14 @@ ssize_t __wrap_read(int fd, void *buf, size_t n) {
 static sem_t g_gate[MAXGATE];
 static void run_prog(const char *actor, char *prog);
 
-static void hook_on_start(tpt_p tpt) { LOGEV("\"e\":\"hook.start\",\"a\":%ld", (long)tpt->thread_num); perturb(); }
-static void hook_on_stop(tpt_p tpt) { LOGEV("\"e\":\"hook.stop\",\"a\":%ld", (long)tpt->thread_num); perturb(); }
+/* thread identity by address (the struct may already be wiped on the failed-create path); while the pool
+ * is still under construction only the virtual thread can be meant */
+static long hook_tid(tpt_p tpt) {
+	if (g_tp == NULL) return (long)g_n;
+	return (long)(tpt - &g_tp->threads[0]);
+}
+static void hook_on_start(tpt_p tpt) { LOGEV("\"e\":\"hook.start\",\"a\":%ld", hook_tid(tpt)); perturb(); }
+static void hook_on_stop(tpt_p tpt) { LOGEV("\"e\":\"hook.stop\",\"a\":%ld", hook_tid(tpt)); perturb(); }
 
 static void user_cb(tpt_p tpt, void *udata) {
 	hmsg_t *m = udata;
@@ -521,6 +528,7 @@ static void exec_line(const char *actor, char *line) {
 		}
 	} else if (!strcmp(op, "nodelay")) { g_ndelay = 0;
 	} else if (!strcmp(op, "perturb")) { sscanf(args, "%d", &a); g_perturb = a;
+	} else if (!strcmp(op, "watchdog")) { sscanf(args, "%d", &a); g_watchdog_s = a; alarm((unsigned)a);
 	} else if (!strcmp(op, "reset")) {
 		pthread_mutex_lock(&g_led_mu); g_nfault = 0; pthread_mutex_unlock(&g_led_mu);
 		g_ndelay = 0; g_next_inst = 1; g_nobj = 0;
@@ -591,7 +599,7 @@ int main(int argc, char **argv) {
 			g_act[i].len += (size_t)snprintf(g_act[i].prog + g_act[i].len, 512, "%s", rest);
 			continue;
 		}
-		alarm(30);
+		alarm((unsigned)g_watchdog_s);
 		if (!strcmp(op, "spawn")) {
 			char nm[16]; sscanf(rest + 5, "%15s", nm);
 			int i = act_find(nm);
